@@ -250,7 +250,13 @@ func randomGame(c *Ctx) *genGame {
 		}
 	}
 	result := func(slot string) {
-		g.p.Ops = append(g.p.Ops, &ptn.Result{Result: resultPool[r.Intn(len(resultPool))]})
+		res := resultPool[r.Intn(len(resultPool))]
+		if r.Chance(1, 30) { // outside the safe fragment: not one of the 25 strings of resultRE
+			res = []string{"2-0", "R", "", "R-0.", "a1", "1.", "r-0", "R-0 x", "0-0-0", "1/2"}[r.Intn(10)]
+			g.safe = false
+			feat("result.unsafe")
+		}
+		g.p.Ops = append(g.p.Ops, &ptn.Result{Result: res})
 		feat("result." + slot)
 	}
 	number := func(n int) {
@@ -287,6 +293,11 @@ func randomGame(c *Ctx) *genGame {
 		if r.Chance(1, 6) {
 			mods = []string{"!", "?", "'", "!!", "??", "?!", "!?", "''", "'!", "!'?"}[r.Intn(10)]
 			feat("modifiers")
+		}
+		if r.Chance(1, 80) { // outside the safe fragment: only ?!' are split off a move token
+			mods = []string{"*", "?*", "*!", "x", ".", "!.", "\"", " ", "? !", "1", "}"}[r.Intn(11)]
+			g.safe = false
+			feat("modifiers.unsafe")
 		}
 		g.p.Ops = append(g.p.Ops, &ptn.Move{Move: m, Modifiers: mods})
 		comment("after-move")
@@ -657,8 +668,12 @@ func emitGame(c *Ctx, g *genGame) {
 		c.Count(f)
 	}
 	c.Emit("ptnrender " + fmtPTN(g.p))
-	if rt := c.Emit("ptnrt " + fmtPTN(g.p)); g.safe && rt != "same" {
-		c.Count("roundtrip.SAFE-" + rt) // a generated-safe game that does not survive: contradicts render_parse_tokens
+	// render + parse on both sides, with the class of the value under the safety predicate next to the outcome:
+	// `safe` <=> `same` (C12.render_parse_bytes). (`ptnsafe` = `ptnrt` plus the class.)
+	cls := c.Emit("ptnsafe " + fmtPTN(g.p))
+	c.Count("ptnsafe." + strings.ReplaceAll(cls, " ", "/"))
+	if rt := cls[strings.IndexByte(cls, ' ')+1:]; g.safe && rt != "same" {
+		c.Count("roundtrip.SAFE-" + rt) // a generated-safe game that does not survive: contradicts render_parse_bytes
 	} else {
 		c.Count("roundtrip." + rt)
 	}
@@ -672,7 +687,7 @@ func emitGame(c *Ctx, g *genGame) {
 	back, err := ptn.ParsePTN(bytes.NewReader(text))
 	if err != nil {
 		if g.safe {
-			c.Count("reparse.err-SAFE") // would contradict render_parse_tokens
+			c.Count("reparse.err-SAFE") // would contradict render_parse_bytes
 		} else {
 			c.Count("reparse.err-unsafe")
 		}
@@ -681,7 +696,7 @@ func emitGame(c *Ctx, g *genGame) {
 	if samePTN(g.p, back) {
 		c.Count("reparse.same")
 	} else if g.safe {
-		c.Count("reparse.differs-SAFE") // would contradict render_parse_tokens: the model run shows it as a disagreement
+		c.Count("reparse.differs-SAFE") // would contradict render_parse_bytes: the model run shows it as a disagreement
 	} else {
 		c.Count("reparse.differs-unsafe")
 	}
@@ -759,6 +774,7 @@ func testdataFiles() [][]byte {
 }
 
 func genC12(c *Ctx) {
+	emitBoundary(c) // every clause of the render/parse safety predicate, from both sides (gen_ptn_bound.go)
 	n := c.Scale(2000, 100000) // thorough: 200k plain games took 37 min wall on a loaded 16-core box; 100k with the puzzle games stays under 30
 	for k := 0; k < n; k++ {
 		emitGame(c, randomGame(c))
